@@ -8,6 +8,7 @@ import (
 	"os"
 	"path/filepath"
 	"sort"
+	"strings"
 	"sync"
 	"time"
 
@@ -99,6 +100,14 @@ func runChild(dir string, l launch) observation {
 			o.Probes = append(o.Probes, ll)
 		}
 	}
+	// the raw ledger is kept for the witnesses; the (many) context probe lines are kept in parsed form only
+	raw := o.Raw[:0]
+	for _, ln := range o.Raw {
+		if !strings.Contains(ln, `"probe":"jsonld-ctx"`) {
+			raw = append(raw, ln)
+		}
+	}
+	o.Raw = raw
 	return o
 }
 
